@@ -12,6 +12,9 @@ PROP = dict(
                        "Comdex.C15.d3_counterexample", "Comdex.C15.d3_panics_when_counter_exceeds_cap",
                        "Comdex.C15.unwrapped_loop_leaks_counterexample", "Comdex.C15.unwrapped_calls_reviewed",
                        "Comdex.C15.units_of_work_wrapped", "Comdex.C15.wrapped_units_propagate_errors",
+                       "Comdex.C15.wrapper_sites_and_their_loops", "Comdex.C15.per_item_loop_processes_ok_items",
+                       "Comdex.C15.blocker_splits_per_item", "Comdex.C15.one_wrapper_all_or_nothing", "Comdex.C15.one_wrapper_for_all_counterexample",
+                       "Comdex.C15.kickoff_leaks_counterexample", "Comdex.C15.kickoff_repeats", "Comdex.C15.kickoff_wrapped_is_atomic",
                        "Comdex.C15.units_use_their_cache_context", "Comdex.C15.per_item_units_can_report_failure", "Comdex.C15.sweep_bounds_read_with_list", "Comdex.C15.table_pins"],
     harness_tests=["TestC15"],
     trusted_base=[KERNEL_TB, HARNESS_TB,
@@ -30,7 +33,9 @@ PROP = dict(
                  "KV stores hold what the keepers' setters wrote (MustUnmarshal of a stored record does not panic)"],
     rule="each case is one (scenario state, real blocker) pair: a baseline run plus one fault run per selected store access of every "
          "wrapped unit (quick: first, last and strided accesses; thorough: every access), or one environment-fault run; "
-         "distinct = distinct trace text of the case, non-trivial = the blocker returned",
+         "distinct = distinct trace text of the case, non-trivial = the blocker returned; per-app cases (hooks.items.single): one real "
+         "liquidity blocker run with a fault in app k (natural poison or the j-th store access of app k's work), judged against the "
+         "real one-app runs; kick-off cases (hooks.kick.single): one (block, auction-mapping entry) of the real liquidationsV2.BeginBlocker",
 )
 
 META = dict(
@@ -48,5 +53,9 @@ META = dict(
          "auction; the second-generation liquidation BeginBlocker then panicked with a slice bound out of range in every block; e29235a) "
          "and D6 (second-generation borrow liquidations ran unwrapped; c15713f). The table also demands that every error produced inside a "
          "wrapped closure is returned (wrapped_units_propagate_errors) and the harness produces error-returning late failures per unit "
-         "(natural failures, per-item step oracle); monitors no_panic, unit_atomic, remaining_run.",
+         "(natural failures, per-item step oracle); monitors no_panic, unit_atomic, remaining_run. The table records for every wrapper "
+         "site the loop it sits in and the loops inside its closure (units_of_work_wrapped, wrapper_sites_and_their_loops) and multi-app "
+         "liquidity worlds check per-app granularity against the real one-app runs (seed s99). OPEN finding D-C15-1: the surplus kick-off "
+         "of liquidationsV2.BeginBlocker runs unwrapped, moves the lot out of the collector before it knows an English auction can start "
+         "and returns at the first failing entry (monitors kickoff_atomic, kickoff_remaining; known_findings.d/C15.json; patch in notes/C15.md).",
 )
